@@ -390,5 +390,16 @@ def rule_i5(repo):
     return res
 
 
+def rule_i6(repo):
+    """Abstraction respects the distinction equality makes: SVar('x', T) != Var('x', T), so abstracting over one
+    must not bind the other (the rule of C01.K13)."""
+    from .c01 import rule_k13
+    r = rule_k13(repo)
+    res = RuleResult('C03.I6', 'abstraction binds exactly the leaves equal to the abstracted variable, kind included', floor=2)
+    for i in r.instances:
+        res.add(i.key, i.ok, i.detail, i.loc)
+    return res
+
+
 def rules(repo):
-    return [rule_i1(repo), rule_i2(repo), rule_i3(repo), rule_i4(repo), rule_i5(repo)]
+    return [rule_i1(repo), rule_i2(repo), rule_i3(repo), rule_i4(repo), rule_i5(repo), rule_i6(repo)]
